@@ -59,7 +59,7 @@ func (c19) Gen(rng *rand.Rand, tier string, i int) *sim.Scenario {
 	}
 	// target literal form; a port inside the literal is drawn from the same boundary set as the parameter
 	withPort := false
-	litPort := pick(rng, "8443", "1", "65535", "8443", "1", "65535", "0", "00", "65536", "70000", "-1", "", "http", "4294967297")
+	litPort := pick(rng, "8443", "1", "65535", "8443", "1", "65535", "0", "00", "65536", "70000", "-1", "", "http", "4294967297", "0443", "010", "00053", "080", "0x1bb", "0b11", "0o17", "4_43", "+443", "443 ", "0065535", "0065536")
 	switch {
 	case v6:
 		switch rng.IntN(3) {
@@ -195,6 +195,8 @@ func (c19) Check(out *sim.Outcome, ri *RunInfo) []Violation {
 			}
 		case n == 0:
 			litDontCare = true
+		case strconv.Itoa(n) != lit:
+			litDontCare = true // leading zeros or a sign: rejecting is fine, executing must use the decimal value
 		}
 	}
 	if mustReject != "" {
@@ -304,16 +306,16 @@ func expectedTarget(c *sim.Call, resolvedPort int) (netip.Addr, int) {
 	if port == 0 {
 		port = 33434
 	}
-	if ap, err := netip.ParseAddrPort(t); err == nil {
-		if ap.Port() == 0 {
-			return ap.Addr().Unmap(), 33434 // ":0" executed means the default
+	// a port inside the literal is a decimal number (leading zeros and a sign do not change its value)
+	if lit, has := literalPort(t); has {
+		if n, err := strconv.Atoi(lit); err == nil && n > 0 {
+			port = n
 		}
-		return ap.Addr().Unmap(), int(ap.Port())
-	}
-	if i := strings.Index(t, "]:"); i >= 0 && strings.HasPrefix(t, "[") {
-		t = t[:i+1] // "[v6]:" with an empty port
-	} else if strings.Count(t, ":") == 1 {
-		t = t[:strings.IndexByte(t, ':')]
+		if strings.HasPrefix(t, "[") {
+			t = t[:strings.Index(t, "]:")+1]
+		} else {
+			t = t[:strings.IndexByte(t, ':')]
+		}
 	}
 	t = strings.Trim(t, "[]")
 	a, _ := netip.ParseAddr(t)
